@@ -412,7 +412,11 @@ func checkClientStream(r *Result, cf *Conf, conn *simnet.Conn, qs []*c02Query) {
 			bad("body", "query body differs (%d bytes, want %d)", len(q.Body), len(cq.q.Body))
 			return
 		}
-		if s := sameSettings(q.Settings, append(append([]ch.Setting{}, cf.Settings...), cq.q.Settings...)); s != "" {
+		wantSettings := append(append([]ch.Setting{}, cf.Settings...), cq.q.Settings...)
+		if cf.Negotiated() < refproto.RevSettingsAsStrings {
+			wantSettings = nil // the revision has no place for them
+		}
+		if s := sameSettings(q.Settings, wantSettings); s != "" {
 			bad("settings", "%s", s)
 			return
 		}
